@@ -1438,6 +1438,13 @@ def gen_s3_cases(seed, tier):
                     for dr in (range(48) if tier == 'quick' else range(256)):
                         cases.append('id=a%d rate=%s src=bytes:%s ops=%s:%s:%s' % (k, rates[2], '00' * 8 + '%02x%02x' % (strat, dr) + '61' * 12, kind, m, val or '-'))
                         k += 1
+    # the character mutator on strings whose characters sit at the ends of the printable range ('~', '!', ' '): every position,
+    # EVERY value of the replacement draw (the replacement must stay printable, the length must stay)
+    for val in ('7e', '617e62', '21', '7e7e', '20', '7e21'):
+        for pos in range(len(val) // 2):
+            for dr in range(256):
+                cases.append('id=a%d rate=%s src=bytes:%s ops=ms:character:%s' % (k, rates[2], '00' * 8 + '%02x%02x' % (pos, dr) + '61' * 4, val))
+                k += 1
     # the generator's own dispatch over LISTS of mutators (hook dispatch_*): first applicable mutator wins; gate open / shut,
     # each first draw, inputs at the ends of their ranges
     dlists = {'dm': ['offbyone+memoindex.1', 'offbyone+memoindex.0', 'memoindex.0+offbyone', 'bitflip+offbyone+memoindex.1', 'memoindex.1+offbyone', 'stringlen+memoindex.0'],
